@@ -3394,6 +3394,16 @@ func (s *ImmuStore) readValueAt(b []byte, off int64, hvalue [sha256.Size]byte, s
 			if errors.Is(err, multiapp.ErrAlreadyClosed) || errors.Is(err, singleapp.ErrAlreadyClosed) {
 				return n, ErrAlreadyClosed
 			}
+			if errors.Is(err, io.EOF) {
+				// io.EOF tells the caller that the value was truncated (its chunk was discarded):
+				// that can only be the case for data lying inside the log. A reference that starts
+				// at or runs past the end of the log is not a truncated value, it is a corrupted one.
+				size, serr := vLog.Size()
+				if serr == nil && (offset >= size ||
+					(vLog.CompressionFormat() == appendable.NoCompression && offset+int64(len(b)) > size)) {
+					return n, fmt.Errorf("%w: value reference beyond the end of the value log", ErrCorruptedData)
+				}
+			}
 			if err != nil {
 				return n, err
 			}
